@@ -424,13 +424,10 @@ def _header_rows(path):
     return path.ghost["hdr_rows"]
 
 
-@model("astropy.io.misc.hdf5.get_header_from_yaml", "thejoker.utils.get_header_from_yaml", "get_header_from_yaml",
-       doc="get_header_from_yaml(lines): the parsed table header; header['datatype'] lists one entry per column with its name and (if any) unit")
 def _get_header(ex, path, args, kwargs, node, fn):
     return PyDict([("datatype", PyList(_header_rows(path)))])
 
 
-@model("astropy.units.Unit", doc="u.Unit(x) of something that already is a unit: that unit")
 def _Unit(ex, path, args, kwargs, node, fn):
     return args[0]
 
@@ -439,12 +436,10 @@ def _hdr_dataset(ex, path, name):
     return SymSeq(z3.Int("n_header_lines"), lambda k: Obj("bytes", {}))
 
 
-@model("bytes.decode")
 def _decode(ex, path, args, kwargs, node, fn):
     return Opaque("header-line")
 
 
-@model("hdr_unit_", doc="spec: the unit stored in header entry i")
 def _hdr_unit(ex, path, args, kwargs, node, fn):
     _header_rows(path)
     return path.ghost["hdr_units"][args[0]]
